@@ -3,6 +3,8 @@
 ///
 /// The main idea behind separating backoff into an independent module is that
 /// it makes it easier to test and compare different backoff solutions.
+#[cfg(kanal_verif)]
+use crate::verif::std;
 use core::{
     num::NonZeroUsize,
     sync::atomic::{AtomicU32, AtomicU8, AtomicUsize, Ordering},
